@@ -50,6 +50,38 @@ func c01Features() []c01Feature {
 			p.Queries = append(p.Queries, PQuery{Name: "ByKeywordTwo", Cmd: ":many", SQL: fmt.Sprintf("SELECT id, %s FROM %s WHERE %s = %s AND id > %s", q(p, kw), t.Name, q(p, kw), p.ph(1), p.ph(2))})
 			return true
 		}},
+		{"schemaHistory", func(r *Rng, p *Project) bool {
+			// the schema reached its state through migrations: enum labels inserted at every position, renamed
+			// labels, added / renamed / retyped columns — the package is generated from the final state
+			if p.Engine == "mysql" || p.RawSchema != "" {
+				return false
+			}
+			if len(p.Enums) == 0 {
+				p.Enums = append(p.Enums, PEnum{Name: "phase", Vals: []string{"alpha", "beta", "gamma"}})
+				p.Tables[0].Cols = append(p.Tables[0].Cols, PCol{Name: "phase", Type: "phase", NotNull: r.Bool()})
+			}
+			for _, e := range p.Enums {
+				first, last := e.Vals[0], e.Vals[len(e.Vals)-1]
+				// (each statement refers only to labels of the ORIGINAL declaration, so that none depends on
+				// how an earlier one was applied)
+				p.Suffix = append(p.Suffix, fmt.Sprintf("ALTER TYPE %s ADD VALUE 'archived' BEFORE '%s';", e.Name, last))
+				if first != last {
+					p.Suffix = append(p.Suffix, fmt.Sprintf("ALTER TYPE %s ADD VALUE 'pending' AFTER '%s';", e.Name, first))
+				}
+				p.Suffix = append(p.Suffix, fmt.Sprintf("ALTER TYPE %s ADD VALUE IF NOT EXISTS 'archived';", e.Name))
+			}
+			t := p.Tables[0]
+			p.Suffix = append(p.Suffix,
+				fmt.Sprintf("ALTER TABLE %s ADD COLUMN hist_a int, ADD COLUMN hist_b text NOT NULL;", t.Name),
+				fmt.Sprintf("ALTER TABLE %s RENAME COLUMN hist_a TO hist_c;", t.Name),
+				fmt.Sprintf("ALTER TABLE %s ALTER COLUMN hist_c TYPE uuid;", t.Name),
+				fmt.Sprintf("ALTER TABLE %s DROP COLUMN hist_b;", t.Name),
+				fmt.Sprintf("CREATE TABLE %s_log (id bigint NOT NULL, at timestamptz NOT NULL);", t.Name),
+				fmt.Sprintf("ALTER TABLE %s_log RENAME TO %s_journal;", t.Name, t.Name))
+			p.Queries = append(p.Queries, PQuery{Name: "HistoryRead", Cmd: ":many", SQL: fmt.Sprintf("SELECT id, hist_c FROM %s WHERE hist_c = $1", t.Name)},
+				PQuery{Name: "JournalRead", Cmd: ":many", SQL: fmt.Sprintf("SELECT * FROM %s_journal", t.Name)})
+			return true
+		}},
 		{"mixedCaseIdentifiers", func(r *Rng, p *Project) bool {
 			// quoted identifiers keep their capitals (ORM-style schemas): a single parameter made from such a
 			// column sits next to the type made from its table
@@ -332,10 +364,22 @@ func runC01(r *Rng, n int, tier string) {
 		case i%3 == 2:
 			k = 1 + r.Intn(2)
 		}
+		// the two features that describe ordinary, valid projects are applied on a fixed schedule of their own
+		benign := map[string]bool{"schemaHistory": true, "mixedCaseIdentifiers": true}
+		for _, f := range feats {
+			if (f.name == "schemaHistory" && i%4 == 0) || (f.name == "mixedCaseIdentifiers" && i%4 == 2) {
+				if f.apply(r, &p) {
+					tags = append(tags, "feat:"+f.name)
+				}
+			}
+		}
 		perm := r.Perm(len(feats))
 		for _, fi := range perm {
 			if k == 0 {
 				break
+			}
+			if benign[feats[fi].name] {
+				continue
 			}
 			if feats[fi].apply(r, &p) {
 				tags = append(tags, "feat:"+feats[fi].name)
